@@ -93,6 +93,84 @@ theorem store_local_aux (np : Bool) (s s' : St) (op : Op) (h : view s op.sid = v
 theorem run_cons (np : Bool) (s : St) (op : Op) (r : List Op) :
     run np s (op :: r) = run np (step np s op).1 r := rfl
 
+/-! ### refinement of the storage to an abstract map (specification side: `absGet`, `specStep`, `specRun`) -/
+
+/-- the abstract content of the storage: (stream id, sequence number) ↦ stored chunk -/
+def absGet (s : St) (sid seq : Nat) : Option Groups := (alGet sid s).bind (alGet seq)
+
+/-- the abstract map after one operation (the specification the storage must refine) -/
+def specStep (np : Bool) (f : Nat → Nat → Option Groups) : Op → Nat → Nat → Option Groups
+  | .store sid seq v => fun a q => if a = sid ∧ q = seq then some (if np then v.withoutPayload else v) else f a q
+  | .remove sid seq => fun a q => if a = sid ∧ q = seq then none else f a q
+  | .list _ => f
+  | .clear sid => fun a q => if a = sid then none else f a q
+
+theorem store_refines_map_lem (np : Bool) (s : St) (op : Op) (a q : Nat) :
+    absGet (step np s op).1 a q = specStep np (absGet s) op a q := by
+  cases op with
+  | store sid seq v =>
+    simp only [step, specStep, absGet]
+    by_cases ha : a = sid
+    · subst ha
+      rw [alGet_alPut_self]
+      by_cases hq : q = seq
+      · subst hq; simp [alGet_alPut_self]
+      · simp only [Option.bind_some, alGet_alPut_ne hq, hq, and_false, if_false]
+        cases h : alGet a s <;> simp [alGet]
+    · simp [alGet_alPut_ne ha, ha]
+  | remove sid seq =>
+    simp only [step, specStep, absGet]
+    cases hm : alGet sid s with
+    | none =>
+      simp only
+      by_cases ha : a = sid
+      · subst ha; simp [hm]
+      · simp [ha]
+    | some m =>
+      simp only
+      cases hv : alGet seq m with
+      | none =>
+        simp only
+        by_cases ha : a = sid
+        · subst ha
+          by_cases hq : q = seq
+          · subst hq; simp [hm, hv]
+          · simp [hq]
+        · simp [ha]
+      | some v =>
+        simp only
+        by_cases ha : a = sid
+        · subst ha
+          rw [alGet_alPut_self]
+          by_cases hq : q = seq
+          · subst hq; simp [alGet_alDel_self]
+          · simp [alGet_alDel_ne hq, hq, hm]
+        · simp [alGet_alPut_ne ha, ha]
+  | list sid =>
+    simp only [step, specStep]
+    cases hm : alGet sid s <;> rfl
+  | clear sid =>
+    simp only [step, specStep, absGet]
+    by_cases ha : a = sid
+    · subst ha; simp [alGet_alDel_self]
+    · simp [alGet_alDel_ne ha, ha]
+
+/-- the abstract map after a whole history -/
+def specRun (np : Bool) (f : Nat → Nat → Option Groups) : List Op → Nat → Nat → Option Groups
+  | [] => f
+  | op :: r => specRun np (specStep np f op) r
+
+theorem store_refines_map_run_lem (np : Bool) (s : St) (ops : List Op) :
+    absGet (run np s ops) = specRun np (absGet s) ops := by
+  induction ops generalizing s with
+  | nil => rfl
+  | cons op r ih =>
+    simp only [run, specRun]
+    rw [ih]
+    congr 1
+    funext a q
+    exact store_refines_map_lem np s op a q
+
 end Iscp.Store
 
 namespace Iscp.Corr
